@@ -28,8 +28,8 @@ sys.path.insert(0, HARNESS)
 import refsolver  # noqa: E402  (reader / renderer and the in-process Strict machine for the second tie)
 
 LEAN_MODULES = ["PySMT.Props.C17"]
-RULE = ("API-call sequences over add_assertion(10 formulas: Bool/BV2/Int/one 0-ary and one binary custom sort, overlapping "
-        "symbols) / push(1|2) / pop(1|2) / solve / get_value / get_model / reset_assertions / is_sat / is_valid / is_unsat, "
+RULE = ("API-call sequences over add_assertion(14 formulas: Bool/BV/Int/one 0-ary and one binary custom sort/arrays whose "
+        "index or element sort is a custom sort occurring nowhere else, overlapping symbols) / push(1|2) / pop(1|2) / solve / get_value / get_model / reset_assertions / is_sat / is_valid / is_unsat, "
         "user-legal (pop within the user's stack, get_value/get_model only directly after a sat verdict); exhaustive up to "
         "the stated length (every prefix is checked while the maximal sequence runs) plus sampled long ones; a case is "
         "non-trivial when at least one declaration is sent and the stack is moved or reset")
@@ -75,6 +75,12 @@ class Pool(object):
         v, i = S("v", BVType(2)), S("i", INT)
         x, y = S("x", U), S("y", U)
         p, p2, r, r2 = S("p", PIU), S("p2", PIU), S("r", PBU), S("r2", PBU)
+        # the custom sort V occurs *only* inside array types (element sort, and nested as index of an inner array)
+        V = tm.Type("V")
+        BV1 = BVType(1)
+        j1, j2 = S("j1", BV1), S("j2", BV1)
+        m1 = S("m1", tm.ArrayType(BV1, V))
+        m2 = S("m2", tm.ArrayType(BV1, tm.ArrayType(V, BOOL)))
         self.symbols = {}       # name -> dict(node, sort, uses, dom, custom)
         dB, dV, dI, dU = [False, True], [0, 1, 2, 3], list(range(-INT_RANGE, INT_RANGE + 1)), list(range(USIZE))
         for n, node, sort, uses, dom in [
@@ -83,9 +89,14 @@ class Pool(object):
                 ("v", v, "(_ BitVec 2)", [], dV), ("i", i, "Int", [], dI),
                 ("x", x, "U", ["U"], dU), ("y", y, "U", ["U"], dU),
                 ("p", p, "(Pair Int U)", ["Pair", "U"], dU), ("p2", p2, "(Pair Int U)", ["Pair", "U"], dU),
-                ("r", r, "(Pair Bool U)", ["Pair", "U"], dU), ("r2", r2, "(Pair Bool U)", ["Pair", "U"], dU)]:
+                ("r", r, "(Pair Bool U)", ["Pair", "U"], dU), ("r2", r2, "(Pair Bool U)", ["Pair", "U"], dU),
+                ("j1", j1, "(_ BitVec 1)", [], [0, 1]), ("j2", j2, "(_ BitVec 1)", [], [0, 1]),
+                # an array value is the tuple of its elements (index 0, index 1)
+                ("m1", m1, "(Array (_ BitVec 1) V)", ["V"], list(itertools.product(dU, repeat=2))),
+                ("m2", m2, "(Array (_ BitVec 1) (Array V Bool))", ["V"],
+                 list(itertools.product(list(itertools.product(dB, repeat=USIZE)), repeat=2)))]:
             self.symbols[n] = {"node": node, "sort": sort, "uses": uses, "dom": dom, "custom": bool(uses)}
-        self.sort_arity = {"U": 0, "Pair": 2}
+        self.sort_arity = {"U": 0, "Pair": 2, "V": 0}
         m = mgr
         # id -> (FNode, predicate over {name: python value}, names the predicate reads)
         self.formulas = {
@@ -102,7 +113,17 @@ class Pool(object):
                    lambda e: e["p"] == e["p2"] and e["r"] != e["r2"] and e["a"], ["p", "p2", "r", "r2", "a"]),
             "Ft": (m.And(a, m.Or(b, m.Not(b))), lambda e: e["a"], ["a", "b"]),
             "Fk": (m.Or(a, unk), lambda e: e["a"] or e["UNKNOWN_k"], ["a", "UNKNOWN_k"]),
+            "Far": (m.Not(m.Equals(m.Select(m1, j1), m.Select(m1, j2))),
+                    lambda e: e["m1"][e["j1"]] != e["m1"][e["j2"]], ["m1", "j1", "j2"]),
+            "Fjj": (m.Equals(j1, j2), lambda e: e["j1"] == e["j2"], ["j1", "j2"]),
+            "Fa2": (m.Not(m.Equals(m.Select(m2, j1), m.Select(m2, j2))),
+                    lambda e: e["m2"][e["j1"]] != e["m2"][e["j2"]], ["m2", "j1", "j2"]),
         }
+        # checked statically only (function symbols are outside the wrapper model): V below an array-typed parameter
+        from pysmt.typing import FunctionType
+        g = S("g", FunctionType(BOOL, [tm.ArrayType(BV1, V)]))
+        self.static_only = {"Fg": (m.Function(g, [m1]), ["V"]),
+                            "Fgs": (m.Function(g, [m.Store(m1, j1, m.Select(m1, j2))]), ["V"])}
         self.not_ = m.Not
         # terms for get_value: id -> FNode
         self.terms = {"a": a, "b": b, "c": c, "v": v, "i": i, "x": x,
@@ -309,6 +330,39 @@ def snapshot(s):
 VERDICT_OPS = ("solve", "is_sat", "is_valid", "is_unsat")
 
 
+def probe_model(mdl, names):
+    """everything a model says through its mapping interface about the symbols `names`"""
+    P = pool()
+    res = {"items": sorted([k.symbol_name(), const_text(x)] for k, x in mdl), "str_lines": len(str(mdl).split("\n")),
+           "in": {}, "value": {}, "value_nc": {}}
+    for n in names:
+        if n not in P.symbols:
+            continue
+        node = P.symbols[n]["node"]
+        res["in"][n] = node in mdl
+        for key, mc in (("value", True), ("value_nc", False)):
+            try:
+                res[key][n] = const_text(mdl.get_value(node, model_completion=mc))
+            except Exception as e:      # noqa
+                res[key][n] = "exc:" + type(e).__name__
+    return res
+
+
+def _reprobe(rec, kept, after):
+    """a model returned earlier must keep saying what it said (models survive later commands and the solver)"""
+    for call, mdl, then in kept:
+        if any(c["model_call"] == call for c in rec["model_changes"]):
+            continue
+        try:
+            now = probe_model(mdl, [k for k, _ in then["items"]])
+        except CaseTimeout:
+            raise
+        except Exception as e:      # noqa
+            now = {"exc": type(e).__name__}
+        if now != then:
+            rec["model_changes"].append({"model_call": call, "after_call": after, "then": then, "now": now})
+
+
 def run_real(ops):
     """run one API-call sequence on the real wrapper; stops at the first exception or user-illegal call"""
     setup()
@@ -320,6 +374,8 @@ def run_real(ops):
     signal.setitimer(signal.ITIMER_REAL, CASE_TIMEOUT)
     s = None
     depth, satmode = 0, False
+    kept = []           # (call index, model object, what it said when it was returned)
+    rec["model_changes"] = []
     try:
         try:
             s = P.env.factory.Solver(name=_SOLVER_NAME, logic=QF_AUFBVLIRA)
@@ -380,6 +436,9 @@ def run_real(ops):
                 rec["values"].append(value)
                 rec["states"].append(snapshot(s))
                 rec["groups"].append(len(ev))
+                _reprobe(rec, kept, len(rec["ops"]) - 1)
+                if kind == "model" and not out.startswith("exc:"):
+                    kept.append((len(rec["ops"]) - 1, mdl, probe_model(mdl, [k for k, _ in value])))
                 if out.startswith("exc:") and out != "exc:SolverReturnedUnknownResultError":
                     break
                 if kind == "push":
@@ -409,6 +468,7 @@ def run_real(ops):
                     pass
             rec["events"] = s.__dict__.get("_c17_events", [])
             rec["groups"].append(len(rec["events"]))
+            _reprobe(rec, kept, len(rec["ops"]))       # models survive the solver
         else:
             rec["events"] = []
     log = []
@@ -563,15 +623,29 @@ def compare_with_model(rec, ans):
     kinds = ["init"] + [op[0] for op in rec["ops"]] + ["exit"]
     if len(mgroups) != len(rgroups):
         diffs.append("number of call groups: model %d real %d" % (len(mgroups), len(rgroups)))
+    # F37 (known): a value the parser cannot read (custom sort, array over a custom sort) makes get_value / get_model
+    # raise in the middle of their queries, while every value is readable for the abstract model.  For that last call
+    # only "the queries sent are among the model's" and the bookkeeping are compared.
+    unread = None
+    if rentries and mentries and len(mentries) >= len(rentries):
+        li = len(rentries) - 1
+        if rec["ops"][li][0] in ("getv", "model") and rentries[li][0].startswith(("err:", "exc:")) \
+                and not mentries[li][0].startswith("err:"):
+            unread = li
     for gi, (mg, rg) in enumerate(zip(mgroups, rgroups)):
         kind = kinds[gi] if gi < len(kinds) else "?"
         if kind == "model":
             mg, rg = sorted(mg), sorted(rg)
+        if unread is not None and gi == unread + 1:
+            if [t for t in rg if t not in mg]:
+                diffs.append("stream of call %d (%s): real %s not among model %s" % (gi - 1, kind, " ".join(rg), " ".join(mg)))
+                break
+            continue
         if mg != rg:
             diffs.append("stream of call %d (%s): model %s real %s" % (gi - 1, kind, " ".join(mg), " ".join(rg)))
             break
     for oi, (me, re_) in enumerate(zip(mentries, rentries)):
-        if me[0] != re_[0]:
+        if me[0] != re_[0] and oi != unread:
             diffs.append("result of call %d (%s): model %s real %s" % (oi, rec["ops"][oi][0], me[0], re_[0]))
             break
         if me[1] != re_[1] or me[2] != re_[2] or me[3] != re_[3]:
@@ -602,6 +676,14 @@ def analyse(rec):
         return out
     ev, log, bounds = rec["events"], rec["log"], rec["groups"]
     kinds = ["__init__"] + [OPNAME[op[0]] for op in rec["ops"]] + ["exit"]
+    for ch in rec.get("model_changes", []):
+        after = ch["after_call"]
+        later = OPNAME[rec["ops"][after][0]] if after < len(rec["ops"]) else "exit"
+        diff = [k for k in ch["then"] if ch["now"].get(k) != ch["then"][k]] if "exc" not in ch["now"] else ["exc"]
+        out.append(({"oracle": "model", "defect": "earlier-model-changed", "later": later},
+                    "the model returned by call %d (get_model) said %s; after call %d (%s) the same object says %s "
+                    "(differs in %s)" % (ch["model_call"], ch["then"]["items"], after, later,
+                                         ch["now"].get("items", ch["now"]), ",".join(diff))))
 
     def call_of(event_index):
         for gi in range(len(bounds) - 1):
@@ -790,7 +872,10 @@ def analyse(rec):
                     for n, txt in got.items():
                         if P.symbols[n]["custom"]:
                             t = reported.get(n, "")
-                            env[n] = int(t.rsplit("!", 1)[1]) if "!" in t else 0
+                            try:
+                                env[n] = int(t.rsplit("!", 1)[1]) if "!" in t else 0
+                            except ValueError:      # an array over a custom sort
+                                usable = False
                         elif txt in ("true", "false"):
                             env[n] = txt == "true"
                         elif txt.startswith("#b"):
@@ -913,6 +998,45 @@ def random_stream(rng):
     return cmds
 
 
+def static_oracles(ctx):
+    """S on helpers the wrapper relies on, without a solver process:
+    (a) `get_types(f, custom_only=True)` names every custom sort the signatures of the symbols of `f` mention (the
+        hand-written table of the pool is the reference) -- else a `declare-sort` is missing from the stream;
+    (b) `EagerModel(assignment=d)` does not change when `d` is changed afterwards."""
+    P = pool()
+    cases = [(fid, f, sorted(set(u for n in names for u in P.symbols[n]["uses"])))
+             for fid, (f, _, names) in P.formulas.items()]
+    cases += [(fid, f, sorted(exp)) for fid, (f, exp) in P.static_only.items()]
+    for fid, f, expected in cases:
+        for label, node in ((fid, f), (fid + ".simplify()", f.simplify()), ("Not(%s).simplify()" % fid, P.not_(f).simplify())):
+            ctx.case(None)
+            got = sorted(set(t.basename for t in P.env.typeso.get_types(node, custom_only=True)))
+            if label == fid and [u for u in expected if u not in got]:
+                ctx.report_s({"oracle": "types", "defect": "get_types-misses-sort"},
+                             "get_types(%s, custom_only=True) = %s lacks %s, mentioned by the sorts of its symbols: "
+                             "add_assertion would not declare it" % (label, got, [u for u in expected if u not in got]),
+                             {"kind": "static", "formula": fid})
+            elif [u for u in got if u not in expected]:
+                ctx.report_s({"oracle": "types", "defect": "get_types-invents-sort"},
+                             "get_types(%s, custom_only=True) = %s, the symbols only mention %s" % (label, got, expected),
+                             {"kind": "static", "formula": fid})
+    from pysmt.solvers.eager import EagerModel
+    mgr = P.env.formula_manager
+    a, b, v = (P.symbols[n]["node"] for n in ("a", "b", "v"))
+    d = {a: mgr.Bool(True), v: mgr.BV(2, 2)}
+    mdl = EagerModel(assignment=d, environment=P.env)
+    then = probe_model(mdl, ["a", "b", "v"])
+    d[a] = mgr.Bool(False)
+    d[b] = mgr.Bool(True)
+    del d[v]
+    now = probe_model(mdl, ["a", "b", "v"])
+    ctx.case(None)
+    if now != then:
+        ctx.report_s({"oracle": "model", "defect": "eager-model-aliases-assignment"},
+                     "EagerModel(assignment=d) said %s; after d was modified it says %s" % (then, now),
+                     {"kind": "static", "formula": "EagerModel"})
+
+
 def strict_tie(ctx, count):
     """D: refsolver.Strict and lean StrictSolver accept / reject the same streams at the same command"""
     reqs, expect, streams = [], [], []
@@ -956,7 +1080,7 @@ def alphabet(full):
     if full:
         return ([["add", f] for f in ADD_FULL] + [["push", 1], ["push", 2], ["pop", 1], ["pop", 2], ["solve"],
                 ["getv", "a"], ["model"], ["reset"], ["is_sat", "Fab"], ["is_valid", "Fa"]])
-    return [["add", "Fa"], ["add", "Fu"], ["push", 2], ["pop", 1], ["solve"], ["model"], ["reset"], ["is_sat", "Fnb"]]
+    return [["add", "Fa"], ["add", "Far"], ["push", 2], ["pop", 1], ["solve"], ["model"], ["reset"], ["is_sat", "Fnb"]]
 
 
 def enumerate_sequences(alpha, length):
@@ -1026,6 +1150,14 @@ def random_sequence(rng, length):
 
 
 SCENARIOS = [
+    # models returned earlier keep their values while the solver goes on (push / assert / solve / get_model / pop)
+    [["add", "Fab"], ["solve"], ["model"], ["push", 1], ["add", "Fa"], ["add", "Fvi"], ["solve"], ["model"], ["pop", 1],
+     ["add", "Fiv"], ["solve"], ["model"], ["reset"], ["add", "Fna"], ["solve"], ["model"]],
+    [["is_sat", "Fab"], ["model"], ["is_sat", "Fa"], ["model"], ["is_valid", "Fnb"], ["model"], ["solve"], ["model"]],
+    # a custom sort that occurs only inside array types
+    [["add", "Far"], ["solve"], ["push", 1], ["add", "Fjj"], ["solve"], ["pop", 1], ["solve"]],
+    [["push", 2], ["add", "Fa2"], ["solve"], ["pop", 1], ["add", "Far"], ["is_sat", "Fjj"], ["reset"], ["add", "Far"],
+     ["solve"]],
     # the witnesses of F23 / F34 / F35 / F36 / F37 / F38 and friends
     [["add", "Fa"], ["push", 1], ["add", "Fab"], ["solve"], ["model"]],
     [["push", 2], ["add", "Fa"], ["pop", 1], ["add", "Fab"], ["pop", 1], ["add", "Fa"], ["solve"]],
@@ -1194,6 +1326,7 @@ def _run(ctx):
     t_end = ctx.t0 + (80 if quick else 840)
     # second tie first (cheap)
     strict_tie(ctx, 300 if quick else 3000)
+    static_oracles(ctx)
     # 1. witnesses
     run_cases(ctx, SCENARIOS, t_end)
     # 2. exhaustive enumeration (every prefix of a maximal sequence is checked while it runs)
@@ -1234,6 +1367,10 @@ def replay(ctx, rep):
         ctx.case(None)
         if ans != exp:
             ctx.report_k("refsolver.py and Spec/StrictSolver.lean disagree: refsolver %s, Lean %s" % (exp, ans), r)
+        return
+    if r.get("kind") == "static":
+        pool()
+        static_oracles(ctx)
         return
     ops = r.get("ops")
     if not ops:
